@@ -260,7 +260,18 @@ def _(v):
     from nipy.algorithms.utils.pca import pca
     r = rs(v); n = v["n"] + 2
     d = lay(r.randn(n, 3, 2), v["layout"]); mask = lay(r.randint(0, 2, size=(3, 2)), v["layout"])
-    return call(lambda: pca(d, axis=0, mask=mask, ncomp=2), d=d, mask=mask)
+    # weight masks as callers hold them: floating point, with non-finite entries, 3-D, 1-D
+    d4 = lay(r.randn(n, 3, 2, 2), v["layout"])
+    fm = r.randint(0, 2, size=(3, 2, 2)).astype(float)
+    fm[0, 0, 0], fm[1, 1, 0], fm[2, 0, 1] = np.nan, np.inf, 1.0
+    fmask = lay(fm, v["layout"])
+    d2 = lay(r.randn(n, 4), v["layout"])
+    m1 = lay(np.array([1.0, np.nan, 0.0, 1.0]), v["layout"])
+    return call([("pca", lambda: pca(d, axis=0, mask=mask, ncomp=2)),
+                 ("pca", lambda: pca(d4, axis=0, mask=fmask, ncomp=2)),
+                 ("pca", lambda: pca(d4, axis=0, mask=fmask.astype(np.float32), ncomp=1)),
+                 ("pca", lambda: pca(d2, axis=0, mask=m1, ncomp=1))],
+                d=d, mask=mask, d4=d4, fmask=fmask, d2=d2, m1=m1)
 
 
 @probe("timediff.time_slice_diffs")
